@@ -344,3 +344,105 @@ func slowReaderScenario(c *Ctx, idx int) {
 		r.Violate(mon.Violation{Signature: "C01/lost-reply/slow-reader", Detail: fmt.Sprintf("a client pipelined %d requests (16 KiB answers), read nothing for %s and then read everything: %d requests were never answered (first: stream %d) although the connection stayed open, every request was answered by the backend, nothing arrived for 15 s and another client completed 50 round trips", res.Sent, stall, missing, firstMissing), Scenario: scenario})
 	}
 }
+
+// localAnswers (C01: "every request frame a connected client sends after the handshake is answered by exactly one response
+// frame"): the requests the proxy answers itself, pipelined and repeated - OPTIONS, REGISTER, USE of the keyspace the
+// connection is already in (same and other spellings), reads of the virtual system tables, PREPARE and repeated EXECUTE of
+// those and of USE - mixed with forwarded queries on several connections.
+func localAnswers(c *Ctx, idx int) {
+	r := c.R
+	rng := c.Rng(83000 + idx)
+	label := "local-answers"
+	scenario := map[string]interface{}{"kind": "local-answers", "idx": idx}
+	c.Step("local-answers idx=%d", idx)
+	bed, err := px.NewBed(px.BedConfig{Hosts: 1 + idx%2, NumConns: 1, Keyspaces: []string{"ks1", "ks2"}, KeepBodies: true})
+	if err != nil {
+		r.Inconc("local-answers: cannot start bed: " + err.Error())
+		return
+	}
+	defer bed.Close()
+	bed.OnHook(nil)
+	scripts := NewScripts()
+	bed.Cluster.SetScript(scripts.Func())
+	var clients []*rawcql.Client
+	for i := 0; i < 2+idx%3; i++ {
+		cl, err := bed.ReadyClient(primitive.ProtocolVersion4, []string{"", "lz4", "snappy"}[(i+idx)%3])
+		if err != nil {
+			r.Inconc("local-answers: handshake: " + err.Error())
+			return
+		}
+		defer cl.Close()
+		clients = append(clients, cl)
+	}
+	mark := bed.Log.Len()
+	opts := &message.QueryOptions{Consistency: primitive.ConsistencyLevelOne}
+	uses := []string{"USE ks1", "USE ks1", `USE "ks1"`, "USE KS1", "USE ks2", "USE ks2", "USE system", "USE system", "USE ks1;"}
+	var wg sync.WaitGroup
+	var sent int64
+	for ci, cl := range clients {
+		wg.Add(1)
+		seed := rng.Int63()
+		go func(ci int, cl *rawcql.Client) {
+			defer wg.Done()
+			lr := rand.New(rand.NewSource(seed))
+			var prepared [][]byte
+			st := int16(0)
+			for round := 0; round < 12; round++ {
+				var chans []chan *rawcql.Frame
+				var kinds []string
+				for k := 0; k < 24; k++ {
+					st++
+					var msg message.Message
+					kind := ""
+					switch x := lr.Intn(10); {
+					case x == 0:
+						msg, kind = &message.Options{}, "options"
+					case x == 1:
+						msg, kind = &message.Register{EventTypes: [][]primitive.EventType{{primitive.EventTypeSchemaChange}, {primitive.EventTypeTopologyChange, primitive.EventTypeStatusChange}, {primitive.EventTypeSchemaChange, primitive.EventTypeSchemaChange}}[lr.Intn(3)]}, "register"
+					case x <= 4:
+						msg, kind = &message.Query{Query: uses[lr.Intn(len(uses))], Options: opts}, "use"
+					case x == 5:
+						msg, kind = &message.Query{Query: []string{"SELECT * FROM system.local", "SELECT * FROM system.peers", "SELECT key FROM system.local", "SELECT count(*) FROM system.peers"}[lr.Intn(4)], Options: opts}, "system-query"
+					case x == 6:
+						msg, kind = &message.Prepare{Query: []string{"SELECT * FROM system.local", "USE ks1", "USE ks2", "SELECT peer FROM system.peers"}[lr.Intn(4)]}, "prepare"
+					case x == 7 && len(prepared) > 0:
+						msg, kind = &message.Execute{QueryId: prepared[lr.Intn(len(prepared))], Options: opts}, "execute"
+					default:
+						f := BuildRequest(primitive.ProtocolVersion4, st, KQuery, true, NewTok(), primitive.ConsistencyLevelOne)
+						chans = append(chans, cl.Expect(st))
+						kinds = append(kinds, "forwarded")
+						if cl.SendF(f) != nil {
+							return
+						}
+						atomic.AddInt64(&sent, 1)
+						continue
+					}
+					chans = append(chans, cl.Expect(st))
+					kinds = append(kinds, kind)
+					if cl.Send(st, msg) != nil {
+						return
+					}
+					atomic.AddInt64(&sent, 1)
+				}
+				for i, ch := range chans {
+					f, err := cl.Wait(ch, 5*time.Second)
+					if err != nil {
+						return // the drain phase decides whether something was lost
+					}
+					if kinds[i] == "prepare" && f.OpCode == primitive.OpCodeResult {
+						if fr, derr := cl.Decode(f); derr == nil {
+							if pr, ok := fr.Body.Message.(*message.PreparedResult); ok {
+								prepared = append(prepared, pr.PreparedQueryId)
+							}
+						}
+					}
+				}
+			}
+		}(ci, cl)
+	}
+	wg.Wait()
+	drain(r, bed, scripts, clients, label, scenario, mark)
+	r.Obs("local_answers_requests", int(sent))
+	r.Eval(int(sent))
+	r.NonTrivial(fmt.Sprintf("local-answers/cl%d/seed%d/idx%d", len(clients), c.Seed, idx))
+}
